@@ -448,6 +448,12 @@ def gen_buffer_case(seed, depth=10):
             ops.append(['probe', rng.choice([-2, -1, 0, 0, 1, 1, 2, 3])])
         else:
             ops.append([k])
+    rng2 = random.Random('bufops-exactcold/%s' % seed)     # separate stream: the other cases stay as they were
+    if rng2.random() < 0.08 and cold_rate != -1:
+        # two observations parked one after the other, the second fitting exactly into what the first leaves free
+        r1, d1, r2, d2 = rng2.randint(1, hot_rate), rng2.randint(1, 6), rng2.randint(1, hot_rate), rng2.randint(1, 6)
+        cold_cap = r1 * d1 + r2 * d2
+        ops = [['ingest', r1, d1], ['settle'], ['h2c'], ['settle'], ['ingest', r2, d2], ['settle'], ['h2c'], ['settle']] + ops
     return {'kind': 'buffer_ops', 'cfg': {'timestep': rng.choice(['seconds'] * 6 + ['minutes', 3, 5, 'Minutes']),
                                           'machines': {'m0': {'flops': 1, 'compute_bandwidth': 1}},
                                           'hot': {'capacity': hot_cap, 'max_ingest_rate': hot_rate},
@@ -770,6 +776,12 @@ class BufferMachine(object):
                         _start(self, gen)
                     except RuntimeError as e:
                         res.viol('C18', 'move_raises', '%s (concurrent): %s' % (k, e), site=k + ':concurrent')
+                    return
+                if not room and not dst.observations['transfer'] and dfree0 - size >= 0:
+                    # the destination's own answer is not the oracle: with nothing in flight, room is free >= size
+                    res.viol('C18', 'move_with_room_refused', '%s size %s dst free %s (stored there: %d)' % (
+                        k, size, dfree0, len(dst.observations['stored'])), site=k)
+                    self.in_op = False
                     return
                 if not room:
                     p = _start(self, gen)
